@@ -9,7 +9,7 @@ EXTENDS Integers, Sequences, FiniteSets, TLC, RTStrings, BigNat
 
 DecMark(cul) == IF cul \in {"en-us", "es-mx", "ja-jp", "zh-cn"} THEN "." ELSE ","
 (* numerals: index -> <<integer digits, fraction digits>> *)
-Numerals == << <<"12", "">>, <<"3", "5">>, <<"1", "">>, <<"250", "">> >>
+Numerals == << <<"12", "">>, <<"3", "5">>, <<"1", "">>, <<"250", "">>, <<"2", "">>, <<"3", "">> >>
 NumText(cul, k) == Numerals[k][1] \o (IF Numerals[k][2] = "" THEN "" ELSE DecMark(cul) \o Numerals[k][2])
 Connector(cul) == CASE cul = "en-us" -> "and" [] cul \in {"es-es", "es-mx"} -> "y" [] cul = "fr-fr" -> "et" [] cul \in {"pt-br", "it-it"} -> "e"
                     [] cul = "de-de" -> "und" [] cul = "nl-nl" -> "en" [] OTHER -> ""
